@@ -185,6 +185,24 @@ def _c10_body(case, rng, sd, nm, n, tabs, vars_, ts, msgs):
         rv, rts = pn_extract(pn_i, nm)
         load(vars_, ts)
         checks.append(("restrict-via-parent", sp2s(sd.node_data(i)["space"], nm), m.add(f"pnrestrict {sp2s(sd.node_data(i)['space'], nm)}"), canon_pn(rv, rts)))
+    # ... and through ANOTHER parent than the recorded one (the documented `parent_id` argument; diamonds of the diagram), whose net is cached first
+    # (seeded change w12_C10)
+    sd2 = make_sd(case["rules"]); sd2.expand_bfs(size_limit=14)
+    done_alt = 0
+    for i in range(1, len(sd2)):
+        if done_alt >= 3:
+            break
+        rec = sd2.node_data(i)["parent_node"]
+        others = [p_ for p_ in sorted(sd2.dag.predecessors(i)) if p_ != rec]
+        if not others or sd2.node_data(i)["percolated_petri_net"] is not None:
+            continue
+        sd2.node_percolated_petri_net(others[0], compute=True)
+        pn_i = sd2.node_percolated_petri_net(i, compute=True, parent_id=others[0])
+        rv, rts = pn_extract(pn_i, nm)
+        load(vars_, ts)
+        spi = sp2s(sd2.node_data(i)["space"], nm)
+        checks.append(("restrict-via-other-parent", spi, m.add(f"pnrestrict {spi}"), canon_pn(rv, rts)))
+        done_alt += 1
     out = m.run()
     if out[i_full] != "1":
         msgs.append("global Petri net does not enable exactly the transitions of the update functions")
@@ -364,6 +382,8 @@ def _c09_worker(case):
         vars_, ts = pn_extract(sd.petri_net, nm)
         m = Model(n, tabs)
         m.cmds.append("\n".join(pn_cmds(vars_, ts)))
+        import copy as _copy
+        pn_pristine = _copy.deepcopy(sd.petri_net)      # a net that no solver call has seen
         checks = []     # (kind, description, model cmd index, real value, post-processing)
         msgs = []
         TC.Control = CaptureControl
@@ -419,6 +439,19 @@ def _c09_worker(case):
                 text = sorted(canon_rule(t, idx) for t in CaptureControl.programs[-1].text)
                 checks.append(("program", desc, m.add(f"trapprog {pb} 0 {ensure} - {','.join(map(str, eff_srcs)) or '-'}"), "|".join(text), None))
                 checks.append(("answers", desc, m.add(f"traps {ensure}"), [sp2s(x, nm) for x in res], (pb, False, ensure, [], eff_srcs, None)))
+            # the answers for a net must not depend on what was asked of the net it was derived from: restrict (a) a pristine copy and (b) the net
+            # that has answered queries with the default source list, and ask both for the maximal trap spaces (seeded change w12_C09)
+            rng4 = random.Random(case["seed"] ^ 0x9C12)
+            TC.trappist(sd.petri_net, problem="max")
+            for _ in range(2):
+                spr = rand_space(rng4, n, 0.35)
+                if "*" not in spr or spr == "*" * n:
+                    continue
+                ra = TC.trappist(PNT.restrict_petrinet_to_subspace(pn_pristine, s2sp(spr, nm)), problem="max")
+                rb = TC.trappist(PNT.restrict_petrinet_to_subspace(sd.petri_net, s2sp(spr, nm)), problem="max")
+                fa, fb = sorted(sorted(x.items()) for x in ra), sorted(sorted(x.items()) for x in rb)
+                if fa != fb:
+                    msgs.append(("answers", f"trappist(restrict_petrinet_to_subspace(net, {spr}), problem=max) depends on the history of `net`: from a pristine copy {fa[:4]}, from the net that answered earlier queries {fb[:4]}"))
         finally:
             TC.Control = CaptureControl._orig
         out = m.run()
@@ -469,5 +502,5 @@ def run_C09(tier, seed):
                          **({"theorem_or_correspondence": "PetriNet.trap_program / deadlock_program vs the text sent to clingo"} if kind == "program" else {})})
     good = [w for w in ws if not w.get("error")]
     return {"evaluations": n, "distinct_nontrivial": len({case_hash(w["case"]) for w in good if w["n"] >= 3}),
-            "rule": "random/modular networks; random calls of trappist (min/max/fix x reverse_time x enclosing subspace x avoided subspaces x source list (auto/none/explicit) x solution_limit in {None,0,1,2}; plus four consecutive calls re-using one explicit source list object, each judged against the designated contents) and of compute_fixed_point_reduced_STG (retained set, ensure, avoid incl. empty avoid space, limit); (i) the program text sent to clingo.Control.add is compared rule-by-rule with the model program generated from the real net, (ii) the answers are compared with the trap spaces / reduced fixed points enumerated by the extracted twins (prefix semantics under a limit); evaluations = number of checks",
+            "rule": "random/modular networks; random calls of trappist (min/max/fix x reverse_time x enclosing subspace x avoided subspaces x source list (auto/none/explicit) x solution_limit in {None,0,1,2}; plus four consecutive calls re-using one explicit source list object, each judged against the designated contents; plus history independence: the maximal trap spaces of a restricted net must be the same whether it was derived from a pristine copy or from the net that answered earlier queries) and of compute_fixed_point_reduced_STG (retained set, ensure, avoid incl. empty avoid space, limit); (i) the program text sent to clingo.Control.add is compared rule-by-rule with the model program generated from the real net, (ii) the answers are compared with the trap spaces / reduced fixed points enumerated by the extracted twins (prefix semantics under a limit); evaluations = number of checks",
             "samples": [{"rules": w["case"]["rules"], "checks": w["checks"]} for w in good[:3]], "violations": viol, "extra": {"networks": len(cases)}}
